@@ -1,5 +1,6 @@
 import TransportVerif.Link.Vnet
 import TransportVerif.Proofs.Vnet
+import TransportVerif.Proofs.VnetPath
 import TransportVerif.Proofs.VnetAcc
 import TransportVerif.Proofs.VnetFifo
 /-
@@ -72,26 +73,36 @@ theorem read_takes_next (n : Net) (hh s : Nat) (sk : SockM) (hs : sockAt n hh s 
 
 /-- In order (FIFO per flow).  Two datagrams written by the same socket that travelled through the
     same sequence of queues to the same socket are handed over in the order they were written —
-    for every topology and every interleaving of writers and routers.  (`flow_fifo_statement` below is
-    the statement without the same-path hypothesis; see DESIGN.md for what is missing.) -/
+    for every topology and every interleaving of writers and routers.  (`flow_fifo` below removes the same-path hypothesis for networks whose NATs start freshly constructed.) -/
 theorem flow_fifo_partial (n : Net) (h : Reach n) (hh s : Nat) (sk : SockM) (hs : sockAt n hh s = some sk)
     (a b : Chunk) (ha : a ∈ sk.delivered) (hb : b ∈ sk.delivered)
     (ho : a.origin = b.origin) (hp : a.hops = b.hops) (hlt : a.id < b.id) :
     Before sk.delivered a b := by
   exact Proofs.Vnet.flow_fifo_partial n h hh s sk hs a b ha hb ho hp hlt
 
-/-- the full ordering claim of C01 (same two sockets ⇒ write order), not proved: it needs that two
-    datagrams of one flow take the same path, which depends on the NAT state along the path -/
-def flow_fifo_statement : Prop :=
-  ∀ (n : Net), Reach n → ∀ (hh s : Nat) (sk : SockM), sockAt n hh s = some sk →
-    ∀ a b, a ∈ sk.delivered → b ∈ sk.delivered → a.origin = b.origin → a.odst = b.odst → a.id < b.id →
-      Before sk.delivered a b
+/-- Same flow, same path: two datagrams written by one socket to one destination that are handed
+    to the same socket travelled through the same sequence of queues — in every network whose NATs
+    start freshly constructed, whatever the NATs translated in between and however much time passed
+    (a NAT never forwards one external address to two different internal addresses,
+    `Props/C01NatStable`; every other routing decision depends on the destination only). -/
+theorem same_flow_same_path (n : Net) (h : Reach2 n) (hh s : Nat) (sk : SockM) (hs : sockAt n hh s = some sk)
+    (a b : Chunk) (ha : a ∈ sk.delivered) (hb : b ∈ sk.delivered) (ho : a.origin = b.origin) (hd : a.odst = b.odst) :
+    a.hops = b.hops := by
+  exact Proofs.Vnet.same_flow_same_path n h hh s sk hs a b ha hb ho hd
+
+/-- In order (FIFO per flow), the full claim: datagrams between the same two sockets are handed over
+    in the order they were written. -/
+theorem flow_fifo (n : Net) (h : Reach2 n) (hh s : Nat) (sk : SockM) (hs : sockAt n hh s = some sk)
+    (a b : Chunk) (ha : a ∈ sk.delivered) (hb : b ∈ sk.delivered)
+    (ho : a.origin = b.origin) (hd : a.odst = b.odst) (hlt : a.id < b.id) :
+    Before sk.delivered a b := by
+  exact Proofs.Vnet.flow_fifo n h hh s sk hs a b ha hb ho hd hlt
 
 /-- Not lost while admissible, step by step: a push into a started router below capacity discards nothing … -/
 theorem push_keeps (n : Net) (r : Nat) (rt : RouterM) (c : Chunk) (hr : n.routers[r]? = some rt)
     (hs : n.started = true) (hcap : rt.cap = 0 ∨ rt.queue.length < rt.cap) :
     (n.pushTo r c).drops = n.drops ∧
-    ∃ rt', (n.pushTo r c).routers[r]? = some rt' ∧ rt'.queue = rt.queue ++ [{ c with hops := c.hops ++ [.queue r] }] := by
+    ∃ rt', (n.pushTo r c).routers[r]? = some rt' ∧ rt'.queue = rt.queue ++ [{ c with hops := c.hops ++ [.queue r], route := c.route ++ [(.queue r, c.dst)] }] := by
   exact Proofs.Vnet.push_keeps n r rt c hr hs hcap
 
 /-- … and a hand-over to a host that has an open socket covering the destination, with room in its
@@ -99,7 +110,7 @@ theorem push_keeps (n : Net) (r : Nat) (rt : RouterM) (c : Chunk) (hr : n.router
 theorem deliver_keeps (n : Net) (hh : Nat) (hm : HostM) (s : Nat) (sk : SockM) (c : Chunk) (h1 : n.hosts[hh]? = some hm)
     (h2 : hm.findSock c.dst = some s) (h3 : hm.socks[s]? = some sk) (h4 : sk.inbox.length < inboxCap) :
     (n.deliver hh c).drops = n.drops ∧
-    ∃ sk', sockAt (n.deliver hh c) hh s = some sk' ∧ sk'.delivered = sk.delivered ++ [{ c with hops := c.hops ++ [.inbox hh s] }] := by
+    ∃ sk', sockAt (n.deliver hh c) hh s = some sk' ∧ sk'.delivered = sk.delivered ++ [{ c with hops := c.hops ++ [.inbox hh s], route := c.route ++ [(.inbox hh s, c.dst)] }] := by
   exact Proofs.Vnet.deliver_keeps n hh hm s sk c h1 h2 h3 h4
 
 /-- one iteration of a router takes exactly the head of its queue -/
